@@ -82,17 +82,18 @@ CONSTANTS
   MaxLen = %d
   MaxTimeouts = 1
   MaxForged = 2
+  MaxFire = %d
 INVARIANTS GenInv Dump
 CHECK_DEADLOCK FALSE
 """
 
 
-def gen_party(ctx, maxlen, simulate=None, depth=None):
+def gen_party(ctx, maxlen, simulate=None, depth=None, fire=1):
     """Handler-call sequences of SignParty: exhaustive to maxlen, or seeded simulation."""
     kw = {}
     if simulate:
         kw = dict(simulate="num=%d" % simulate, depth=depth, extra=("-seed", str(ctx.seed)), workers=1)
-    res = ctx.tlc("SignPartyGen", cfg_text=PARTY_CFG % maxlen, timeout=1500, **kw)
+    res = ctx.tlc("SignPartyGen", cfg_text=PARTY_CFG % (maxlen, fire), timeout=1500, **kw)
     seen, hs = set(), []
     for raw in ctx.tlc_lines(res, "HIST"):
         if raw in seen:
@@ -165,15 +166,22 @@ def run(ctx):
         lambda: ctx.tlc("SignRound", cfg="SignRound_keys.cfg", timeout=1500),
         lambda: ctx.tlc("SignRound", cfg="SignRound_keys_ascoded.cfg", allow_violation=True),
         lambda: ctx.tlc("SignParty", cfg="SignParty.cfg" if quick else "SignParty_wide.cfg", coverage=not quick, timeout=1500),
-        lambda: gen_party(ctx, 4 if quick else 5),
+        # thorough: length 5 without, length 4 (below) with a proposal handled under fire -- the sequences of
+        # length 5 with one are 5.2 million (2.7 GB of TLC output)
+        lambda: gen_party(ctx, 4) if quick else gen_party(ctx, 5, fire=0),
         lambda: gen_party(ctx, 9, simulate=150 if quick else 2500, depth=10),
         lambda: ctx.tlc("SignParty", cfg="SignParty_slot.cfg", allow_violation=True),
     ]
     asc_invs = () if quick else ("OnlyValidShares", "ThresholdImpliesValidGroupSig", "OneFaultTolerated")
     for inv in asc_invs:
         jobs.append(lambda inv=inv: ctx.tlc("SignRound", cfg="SignRound_ascoded_%s.cfg" % inv, allow_violation=True))
+    if not quick:
+        jobs.append(lambda: gen_party(ctx, 4))
     res = overlapped(jobs)
     ref, (gen, hists), (kgen, khists), kref, kasc, pref, (pgen, pshort), (psim, pdeep), pslot = res[:9]
+    if not quick:
+        pshort = pshort + res[-1][1]
+        res = res[:-1]
     ascoded = {inv: bool(r["error"]) for inv, r in zip(asc_invs, res[9:])}
     ascoded["KeyTableGenuine (first announcer wins)"] = bool(kasc["error"])
     # 2. TLC-generated message sequences (C15) and handler-call sequences (extension)
